@@ -734,13 +734,56 @@ def shard_protocol_guards(repo, col):
             "" if late else "a chunk whose id is below the next expected id "
             "of its minishard is not refused at store time (ids in a "
             "minishard index must be strictly increasing)")
-    rets = [norm(expand(s.value, ctab)) for s in stmts_of(cba.node)
-            if isinstance(s, ast.Return) and s.value is not None]
-    ok = rets in (["self.next_cmc == %s" % cba.params[-1]],
-                  ["%s == self.next_cmc" % cba.params[-1]])
-    col.add(rule, cba, "appendable iff id == next expected id", ok,
-            "" if ok else "can_be_appended returns `%s`" % rets,
-            undecided=not ok and len(rets) != 1)
+    cmcp = cba.params[-1]
+    eq_forms = ("self.next_cmc == %s" % cmcp, "%s == self.next_cmc" % cmcp)
+
+    def enclosing_tests(target):
+        found = []
+
+        def visit(stmts, ctx):
+            for st in stmts:
+                if st is target:
+                    found.append(list(ctx))
+                    return True
+                if isinstance(st, ast.If):
+                    if visit(st.body, ctx + [(st.test, True)]) or \
+                            visit(st.orelse, ctx + [(st.test, False)]):
+                        return True
+                else:
+                    for field in ("body", "orelse", "finalbody"):
+                        sub = getattr(st, field, None)
+                        if isinstance(sub, list) and sub and \
+                                isinstance(sub[0], ast.stmt) and \
+                                visit(sub, ctx):
+                            return True
+            return False
+        visit(cba.node.body, [])
+        return found[0] if found else []
+
+    ret_stmts = [s for s in stmts_of(cba.node) if isinstance(s, ast.Return)
+                 and s.value is not None]
+    rets = [norm(expand(s.value, ctab)) for s in ret_stmts]
+    ok, und, bad = bool(ret_stmts), False, None
+    for st_, txt in zip(ret_stmts, rets):
+        v = expand(st_.value, ctab)
+        if txt in eq_forms:
+            continue
+        if isinstance(v, ast.Constant) and v.value is False:
+            continue
+        if isinstance(v, ast.Constant) and v.value is True:
+            ctx = enclosing_tests(st_)
+            if ctx and ctx[-1][1] is True and \
+                    norm(expand(ctx[-1][0], ctab)) in eq_forms:
+                continue
+            ok, bad = False, "True under `%s`" % (" and ".join(
+                ("" if t else "not ") + norm(x) for x, t in ctx) or "no test")
+            continue
+        ok, und = False, True
+    col.add(rule, cba, "appendable iff id == next expected id", ok or
+            (und and bad is None),
+            "" if ok else "can_be_appended returns %s: a chunk that is not "
+            "the next expected one of its minishard is appended out of place"
+            % (bad or rets), undecided=und and bad is None and not ok)
     # 2. reader: the walked id must equal the requested id before any read
     rd = repo.func("sharded_base", "ReadableMiniShardCMC.fetch_cmc_chunk")
     cfg = rd.cfg()
